@@ -98,6 +98,9 @@ package banderwagon
 //@ modifies *
 //@ loop 0 invariant 0 <= i && i <= len(elements) && len(ys) == len(elements) && fresh(ys)
 //@ loop 0 invariant forall k int :: 0 <= k && k < len(elements) ==> obj(elements[k]) >= 1
+//@ loop 1 invariant 0 <= i && i <= len(elements) && len(yInvs) == len(elements) && len(result) == len(elements)
+//@ loop 1 invariant forall k int :: 0 <= k && k < len(elements) ==> obj(elements[k]) >= 1
+//@ loop 1 invariant forall k int :: 0 <= k && k < len(result) ==> obj(result[k]) >= 1
 
 // ---- batch serialisation (C19)
 
@@ -114,6 +117,9 @@ package banderwagon
 // (value clause result[k] == Bytes(*elements[k]) not discharged: strided byte-array invariant, see DESIGN)
 //@ loop 0 invariant 0 <= i && i <= len(elements) && len(zs) == len(elements) && fresh(zs)
 //@ loop 0 invariant forall k int :: 0 <= k && k < i ==> zs[k] == elements[k].inner.Z
+//@ loop 1 invariant 0 <= i && i <= len(elements) && len(zInvs) == len(elements) && fresh(zInvs) && len(serialised_points) == len(elements) && fresh(serialised_points) && obj(serialised_points) != obj(zInvs)
+//@ loop 1 invariant len(zs) == len(elements) && (forall k int :: 0 <= k && k < len(elements) ==> zs[k] == elements[k].inner.Z)
+//@ loop 1 invariant forall k int :: 0 <= k && k < len(elements) ==> zInvs[k] == fp_inv(zs[k])
 
 // ---- precomputed-table scalar multiplication: table-access safety and frame (the functional recoding contract
 // was attempted and not discharged, see /verif/notes and DESIGN.md C05)
